@@ -93,7 +93,7 @@ def run_fcase(case, seed=0, replay_dir=None, known=None):
         for entry in obs:
             label, post = entry[0], entry[1]
             assume = base if len(entry) < 3 else list(entry[2])
-            assume = _cone(assume, post)  # only the constraints that share symbols (transitively) with the post-condition
+            assume = _cone(assume, post, fi.targets)  # backward slice of the contracts / lemma instances from the post-condition
             queries.append(assume + [z3.Not(post)])
         # all obligations of the case are decided concurrently (the cvc5 leg runs as sub-processes)
         import concurrent.futures as _cf
@@ -194,23 +194,40 @@ def _consts(e, cache):
     return out
 
 
-def _cone(assume, post):
-    """cone of influence: drop constraints that share no uninterpreted constant, directly or through other constraints, with the
-    post-condition (sound: dropping assumptions can only make `unsat` harder to obtain)"""
-    cache = {}
-    want = set(_consts(post, cache))
-    sets = [(_consts(a, cache), a) for a in assume]
-    keep = [False] * len(sets)
+def _subterms(e, acc):
+    stack = [e]
+    while stack:
+        t = stack.pop()
+        i = t.get_id()
+        if i in acc:
+            continue
+        acc.add(i)
+        stack.extend(t.children())
+
+
+def _cone(assume, post, targets=None):
+    """backward slice: every contract / lemma instance is ABOUT one term (a havocked value or an uninterpreted application, see
+    FInterp.targets); it is kept only if that term occurs in the post-condition or in a constraint already kept.  Constraints without a
+    recorded target (the precondition) are always kept.  Sound: dropping assumptions can only make `unsat` harder to obtain."""
+    targets = targets or {}
+    rel = set()
+    _subterms(post, rel)
+    keep = [False] * len(assume)
+    for k, a in enumerate(assume):
+        if a.get_id() not in targets:
+            keep[k] = True
+            _subterms(a, rel)
     changed = True
     while changed:
         changed = False
-        for k, (cs, a) in enumerate(sets):
-            if not keep[k] and (not cs or cs & want):
+        for k, a in enumerate(assume):
+            if keep[k]:
+                continue
+            if targets[a.get_id()].get_id() in rel:
                 keep[k] = True
-                if cs - want:
-                    want |= cs
-                    changed = True
-    return [a for k, (cs, a) in enumerate(sets) if keep[k]]
+                _subterms(a, rel)
+                changed = True
+    return [a for k, a in enumerate(assume) if keep[k]]
 
 
 def _write_replay(case, label, hit, witness, replay_dir):
